@@ -647,6 +647,7 @@ type ContractSet struct {
 	Order   []string
 	Sweeps  []SweepDecl
 	TypeInvs []TypeInv
+	ValInvs  []TypeInv
 	FrameDecls []FrameDecl
 	Lemmas     []*Lemma
 }
@@ -700,7 +701,7 @@ func (cs *ContractSet) parseContractLines(file, pkgPath string, lines []string, 
 		line int
 	}
 	var stmts []stmt
-	top := map[string]bool{"func": true, "spec": true, "axiom": true, "sort": true, "opaque": true, "alias": true, "lemma": true, "sweep": true, "typeinv": true, "frameclean": true, "noleak": true}
+	top := map[string]bool{"func": true, "spec": true, "axiom": true, "sort": true, "opaque": true, "alias": true, "lemma": true, "sweep": true, "typeinv": true, "valinv": true, "frameclean": true, "noleak": true}
 	for i, ln := range lines {
 		t := strings.TrimSpace(ln)
 		if t == "" || strings.HasPrefix(t, "//") {
@@ -831,6 +832,18 @@ func (cs *ContractSet) parseContractLines(file, pkgPath string, lines []string, 
 				return fmt.Errorf("%s:%d: %v", file, s.line, err)
 			}
 			cs.TypeInvs = append(cs.TypeInvs, TypeInv{Type: strings.TrimPrefix(tn, "*"), Pkg: pkgPath, Clause: Clause{Kind: "typeinv", Name: "typeinv", Src: ex, Expr: e, File: file, Line: s.line}})
+			cur = nil
+		case "valinv":
+			// valinv <Type> <expr over self>: representation invariant of every
+			// value of the struct type; assumed wherever such a value comes from
+			// outside the function under verification, an obligation where one
+			// is built with a composite literal
+			tn, ex := splitWord(rest)
+			e, err := parseContractExpr(ex)
+			if err != nil {
+				return fmt.Errorf("%s:%d: %v", file, s.line, err)
+			}
+			cs.ValInvs = append(cs.ValInvs, TypeInv{Type: strings.TrimPrefix(tn, "*"), Pkg: pkgPath, Clause: Clause{Kind: "valinv", Name: "valinv", Src: ex, Expr: e, File: file, Line: s.line}})
 			cur = nil
 		case "alias":
 			parts := strings.Split(rest, "=")
